@@ -13,6 +13,23 @@ func (e Event) tryResume(err error) {
 	}
 }
 
+// dirGate waits for the next gate of the state writer in progress. With the model attached it has
+// to be `want` (the order WritePersistentState is known to use). Oracle-only, the writer may touch
+// the directory in any order and any number of times: every directory operation and the end of
+// WritePersistentState are accepted, the schedule goes on (rotations, uploads, crashes with the
+// loss subsets the simulated directory admits for what the code really did), and the read-back
+// oracle decides.
+func (r *Runner) dirGate(ch chan Event, want string) (Event, bool) {
+	if r.Model != nil {
+		return r.expect(ch, want)
+	}
+	e, ok := r.expect(ch, dirOps...)
+	if ok && e.Kind != want {
+		r.Run.Count("state directory protocol deviation: got " + e.Kind + ", want " + want)
+	}
+	return e, ok
+}
+
 // Drained reports whether the runner gave up following the syncer step by step (see drain).
 func (r *Runner) Drained() bool { return r.drained }
 
